@@ -158,6 +158,9 @@ func C09(c *Ctx) {
 		case 0, 1: // (i) one-step on (value class x recipe) operands
 			a := drawFe(r, i%8 == 0)
 			b := drawFe(r, i%8 == 0)
+			if i%32 == 5 {
+				b = a // both operands the same object
+			}
 			c.Tally("recipe:" + recipeKey(a.desc))
 			c.feOps(r, a, b, i%16 == 0)
 			c.Sample("one-step:"+recipeKey(a.desc), map[string]any{"a": intHex(a.v), "a-repr": a.desc, "a-limbs": a.limbs(), "b": intHex(b.v), "b-repr": b.desc})
